@@ -1639,4 +1639,246 @@ theorem accepts_59_of_doc (s : Text)
     | err => rw [hpn] at hok; cases hok
     | panic => rw [hpn] at hok; cases hok
 
+
+/-! ### 23E, 25A, 26T, 77T: documented format ⇔ acceptance, and the value is the text -/
+
+theorem bind_ok_inv {α β : Type} {x : Res α} {f : α → Res β} {b : β} (h : (x >>= f) = .ok b) :
+    ∃ a, x = .ok a ∧ f a = .ok b := by
+  cases x with
+  | ok a => exact ⟨a, rfl, h⟩
+  | err => simp at h
+  | panic => simp at h
+
+theorem guard_ok {b : Bool} {u : Unit} (h : Res.guard b = .ok u) : b = true := by
+  unfold Res.guard at h; split at h
+  · assumption
+  · cases h
+
+theorem head_tail_of_head {l : Text} {c : Char} (h : l.head? = some c) : l = c :: l.tail := by
+  cases l with
+  | nil => simp at h
+  | cons a as => simp at h; subst h; rfl
+
+/-- 23E -/
+theorem f23E_reproduces (s : Text) (v : F23E) (h : F23E.parse s = .ok v) : F23E.ser v = s := by
+  unfold F23E.parse at h
+  split at h; · cases h
+  rename_i hasc
+  split at h; · cases h
+  rename_i hlen
+  have ha : isAsciiT s = true := by simpa using hasc
+  have hb := blen_ascii s ha
+  have hl : 4 ≤ s.length := by
+    have : ¬ blen s < 4 := by simpa using hlen
+    omega
+  rw [bslice_ascii s 0 4 ha (by omega) hl] at h
+  simp only [Res.bind_ok] at h
+  split at h; · cases h
+  split at h
+  · rename_i hgt
+    have hl5 : 5 ≤ s.length := by
+      have : blen s > 4 := by simpa using hgt
+      omega
+    rw [bfrom_ascii s 4 ha (by omega), bfrom_ascii s 5 ha hl5] at h
+    simp only [Res.bind_ok] at h
+    split at h; · cases h
+    rename_i hhead
+    split at h; · cases h
+    split at h; · cases h
+    obtain ⟨_, _, h3⟩ := bind_ok_inv h
+    cases h3
+    unfold F23E.ser
+    simp only
+    have hh : (s.drop 4).head? = some '/' := by simpa using hhead
+    have e1 := head_tail_of_head hh
+    have e2 : (s.drop 4).tail = s.drop 5 := by rw [List.tail_drop]
+    rw [e2] at e1
+    calc (s.drop 0).take (4 - 0) ++ '/' :: s.drop 5 = s.take 4 ++ s.drop 4 := by rw [← e1]; simp
+      _ = s := List.take_append_drop 4 s
+  · rename_i hle
+    cases h
+    unfold F23E.ser
+    simp only [List.append_nil]
+    have : s.length = 4 := by
+      have : ¬ blen s > 4 := by simpa using hle
+      omega
+    simp [List.take_of_length_le (Nat.le_of_eq this)]
+
+/-- 25A `/34x`: a slash and 1 to 34 x-characters -/
+theorem accepts_iff_25A (s : Text) : (F25A.parse s).isOk = true ↔ ∃ a, s = '/' :: a ∧ Doc.XText 34 a := by
+  unfold F25A.parse
+  constructor
+  · intro h
+    split at h
+    · rename_i acc
+      split at h; · simp [Res.isOk] at h
+      rename_i hne
+      split at h; · simp [Res.isOk] at h
+      rename_i hl
+      have hx : acc.all isSwiftX = true := by
+        unfold parseSwiftChars Res.guard at h
+        by_cases hh : acc.all isSwiftX = true
+        · exact hh
+        · simp [hh, Res.isOk] at h
+      refine ⟨acc, rfl, xtext_of_checks 34 acc (by omega) ?_ hx⟩
+      intro he; subst he; simp at hne
+    · simp [Res.isOk] at h
+  · rintro ⟨a, rfl, hd⟩
+    obtain ⟨h1, h2, h3⟩ := checks_of_xtext 34 a hd
+    have hne : a.isEmpty = false := by cases a <;> simp_all
+    have hl : ¬ blen a > 34 := by omega
+    simp [hne, hl, parseSwiftChars, Res.guard, h3, Res.isOk]
+
+/-- 26T `3!c`: exactly three capital letters or digits -/
+theorem accepts_iff_26T (s : Text) : (F26T.parse s).isOk = true ↔ s.length = 3 ∧ ∀ c ∈ s, isUpperAlnum c = true := by
+  unfold F26T.parse parseExactLength
+  constructor
+  · intro h
+    by_cases h1 : (blen s == 3) = true
+    · simp only [h1, if_true, Res.bind_ok] at h
+      by_cases h2 : s.all isUpperAlnum = true
+      · have hasc : isAsciiT s = true := by
+          unfold isAsciiT; rw [List.all_eq_true] at *
+          intro c hc; exact upperOrDigit_ascii c (by simpa [upperOrDigit, isUpperAlnum] using h2 c hc)
+        have : blen s = 3 := by simpa using h1
+        rw [blen_ascii s hasc] at this
+        exact ⟨this, fun c hc => List.all_eq_true.mp h2 c hc⟩
+      · simp [h2, Res.isOk] at h
+    · simp [h1, Res.isOk] at h
+  · rintro ⟨h1, h2⟩
+    have hall : s.all isUpperAlnum = true := List.all_eq_true.mpr h2
+    have hasc : isAsciiT s = true := by
+      unfold isAsciiT; rw [List.all_eq_true]
+      intro c hc; exact upperOrDigit_ascii c (by simpa [upperOrDigit, isUpperAlnum] using h2 c hc)
+    have : blen s = 3 := by rw [blen_ascii s hasc]; exact h1
+    simp only [this, beq_self_eq_true, if_true, Res.bind_ok, hall]
+    rfl
+
+/-- 77T `9000z`: any non-empty text of at most 9000 bytes -/
+theorem accepts_iff_77T (s : Text) : (F77T.parse s).isOk = true ↔ s ≠ [] ∧ blen s ≤ 9000 := by
+  unfold F77T.parse
+  constructor
+  · intro h
+    split at h; · simp [Res.isOk] at h
+    rename_i hne
+    split at h; · simp [Res.isOk] at h
+    rename_i hl
+    exact ⟨by intro he; subst he; simp at hne, by omega⟩
+  · rintro ⟨h1, h2⟩
+    have hne : s.isEmpty = false := by cases s <;> simp_all
+    have : ¬ blen s > 9000 := by omega
+    simp [hne, this, Res.isOk]
+
+/-- the documented format of 23E, `4!c[/35x]` -/
+def Doc23E (s : Text) : Prop :=
+  ∃ code : Text, code.length = 4 ∧ (∀ c ∈ code, isUpperAlnum c = true) ∧
+    (s = code ∨ ∃ info, s = code ++ '/' :: info ∧ Doc.XText 35 info)
+
+theorem upperAlnum_all_ascii (t : Text) (h : ∀ c ∈ t, isUpperAlnum c = true) : isAsciiT t = true := by
+  unfold isAsciiT; rw [List.all_eq_true]
+  intro c hc; exact upperOrDigit_ascii c (by simpa [upperOrDigit, isUpperAlnum] using h c hc)
+
+theorem f23E_write (code : Text) (info : Option Text) (h4 : code.length = 4) (hc : ∀ c ∈ code, isUpperAlnum c = true)
+    (hi : ∀ i, info = some i → Doc.XText 35 i) :
+    F23E.parse (F23E.ser ⟨code, info⟩) = .ok ⟨code, info⟩ := by
+  have hca := upperAlnum_all_ascii code hc
+  have hcall : code.all isUpperAlnum = true := List.all_eq_true.mpr hc
+  cases info with
+  | none =>
+    unfold F23E.ser F23E.parse
+    simp only [List.append_nil]
+    have hb : blen code = 4 := by rw [blen_ascii code hca]; exact h4
+    simp only [hca, Bool.not_true, Bool.false_eq_true, if_false, hb]
+    rw [bslice_ascii code 0 4 hca (by omega) (by omega)]
+    have : (code.drop 0).take (4 - 0) = code := by simp [List.take_of_length_le (Nat.le_of_eq h4)]
+    simp only [Res.bind_ok, this, hcall, Bool.not_true, Bool.false_eq_true, if_false, gt_iff_lt, Nat.lt_irrefl, Res.pure_eq]
+
+  | some i =>
+    obtain ⟨i1, i2, i3⟩ := checks_of_xtext 35 i (hi i rfl)
+    have hia := all_swiftX_ascii i i3
+    unfold F23E.ser F23E.parse
+    simp only
+    have hall : isAsciiT (code ++ '/' :: i) = true := by
+      unfold isAsciiT at *; rw [List.all_append, hca]; simp only [List.all_cons, hia, Bool.and_true, Bool.true_and]; decide
+    have hlen : (code ++ '/' :: i).length = 5 + i.length := by simp [h4]; omega
+    have hb : blen (code ++ '/' :: i) = 5 + i.length := by rw [blen_ascii _ hall]; exact hlen
+    simp only [hall, Bool.not_true, Bool.false_eq_true, if_false, hb]
+    have h1 : ¬ (5 + i.length < 4) := by omega
+    simp only [h1, if_false]
+    rw [bslice_ascii _ 0 4 hall (by omega) (by omega)]
+    have e0 : ((code ++ '/' :: i).drop 0).take (4 - 0) = code := by
+      simp only [List.drop_zero, Nat.sub_zero]
+      rw [List.take_append_of_le_length (by omega)]
+      exact List.take_of_length_le (Nat.le_of_eq h4)
+    simp only [Res.bind_ok, e0, hcall, Bool.not_true, Bool.false_eq_true, if_false]
+    have h2 : 5 + i.length > 4 := by omega
+    simp only [h2, if_true]
+    rw [bfrom_ascii _ 4 hall (by omega), bfrom_ascii _ 5 hall (by omega)]
+    have e4 : (code ++ '/' :: i).drop 4 = '/' :: i := by
+      rw [List.drop_append_of_le_length (by omega)]
+      simp [List.drop_of_length_le (Nat.le_of_eq h4)]
+    have e5 : (code ++ '/' :: i).drop 5 = i := by
+      have : (code ++ '/' :: i).drop 5 = ((code ++ '/' :: i).drop 4).drop 1 := by rw [List.drop_drop]
+      rw [this, e4]; rfl
+    have hne : i.isEmpty = false := by cases i <;> simp_all
+    have hl : ¬ blen i > 35 := by omega
+    simp only [Res.bind_ok, e4, e5, List.head?_cons, bne_self_eq_false, Bool.false_eq_true, if_false, hne, hl, parseSwiftChars,
+      Res.guard, i3, if_true, Res.pure_eq]
+
+theorem accepts_iff_23E (s : Text) : (F23E.parse s).isOk = true ↔ Doc23E s := by
+  constructor
+  · intro h
+    cases hp : F23E.parse s with
+    | ok v =>
+      have hrep := f23E_reproduces s v hp
+      -- the components satisfy the documented shape
+      unfold F23E.parse at hp
+      split at hp; · cases hp
+      rename_i hasc
+      split at hp; · cases hp
+      rename_i hlen
+      have ha : isAsciiT s = true := by simpa using hasc
+      have hb := blen_ascii s ha
+      have hl : 4 ≤ s.length := by
+        have : ¬ blen s < 4 := by simpa using hlen
+        omega
+      rw [bslice_ascii s 0 4 ha (by omega) hl] at hp
+      simp only [Res.bind_ok] at hp
+      split at hp; · cases hp
+      rename_i hcode
+      have hcode' : ∀ c ∈ (s.drop 0).take (4 - 0), isUpperAlnum c = true := by
+        have : ((s.drop 0).take (4 - 0)).all isUpperAlnum = true := by simpa using hcode
+        exact fun c hc => List.all_eq_true.mp this c hc
+      have hclen : ((s.drop 0).take (4 - 0)).length = 4 := by simp; omega
+      split at hp
+      · rename_i hgt
+        have hl5 : 5 ≤ s.length := by
+          have : blen s > 4 := by simpa using hgt
+          omega
+        rw [bfrom_ascii s 4 ha (by omega), bfrom_ascii s 5 ha hl5] at hp
+        simp only [Res.bind_ok] at hp
+        split at hp; · cases hp
+        split at hp; · cases hp
+        rename_i hne
+        split at hp; · cases hp
+        rename_i hl35
+        obtain ⟨_, hsw, h3⟩ := bind_ok_inv hp
+        cases h3
+        have hx : (s.drop 5).all isSwiftX = true := by
+          unfold parseSwiftChars at hsw; exact guard_ok hsw
+        refine ⟨_, hclen, hcode', Or.inr ⟨s.drop 5, ?_, xtext_of_checks 35 _ (by omega) (by intro he; rw [he] at hne; simp at hne) hx⟩⟩
+        unfold F23E.ser at hrep; simpa using hrep.symm
+      · cases hp
+        refine ⟨_, hclen, hcode', Or.inl ?_⟩
+        unfold F23E.ser at hrep; simpa using hrep.symm
+    | err => rw [hp] at h; simp [Res.isOk] at h
+    | panic => rw [hp] at h; simp [Res.isOk] at h
+  · rintro ⟨code, h4, hc, hs | ⟨info, hs, hx⟩⟩
+    · have := f23E_write code none h4 hc (by intro i hi; cases hi)
+      unfold F23E.ser at this; simp only [List.append_nil] at this
+      rw [hs, this]; rfl
+    · have := f23E_write code (some info) h4 hc (by intro i hi; cases hi; exact hx)
+      unfold F23E.ser at this; simp only at this
+      rw [hs, this]; rfl
+
 end SwiftMT.Props.C05
